@@ -16,11 +16,19 @@
   Part 4: what the repaired `with` computes (the copy really is a copy of the old contents).
   Part 5: the write sites of rel/ and syntax/std_seq*.go are the ones this model was written against, and the
           callees they rely on still return slices of their own.
+  Part 7: in-bounds well-formedness of every slice of every value (sequences and relations).
+  Part 9: refinement — with / without / offset / builder-made results denote what `Spec` says.
+  Part 8: nested payloads — why array items may be held as denotations (reference-following view, reduction theorem).
   Part 6: relations — headings (NamesSlice) and rows (Values) are slices too: the same theorems for histories of
           joins (all eight operators, on results of earlier joins), with/without/where/|/nest/unnest/rank/=>.
 -/
 import Arrai.C03.Lemmas
 import Arrai.C03.RelLemmas
+import Arrai.C03.WF
+import Arrai.C03.RelWF
+import Arrai.C03.Nested
+import Arrai.C03.RefineOps
+import Arrai.C03.RefineSeq
 import Arrai.C03.Expected
 import Arrai.Facts.Generated
 
@@ -131,9 +139,9 @@ def siblings : List Op := [.root .S 0 abc, .with_ 0 .S 3 (.num 100), .with_ 0 .S
 /-- `let a = 'abc'; let b = a without (@:2,@char:99); let c = b with (@:2,@char:100); [a, b, c]` -/
 def ancestor : List Op := [.root .S 0 abc, .without 0 .S 2 (.num 99), .with_ 1 .S 2 (.num 100)]
 
-/-- `let a = <<1,2,3>>; let b = a without (@:1,@byte:2); let c = b with (@:1,@byte:9); [a, b, c]` -/
+/-- `let a = <<1,2,3>>; let b = a without (@:2,@byte:3); let c = b with (@:2,@byte:9); [a, b, c]` -/
 def ancestorBytes : List Op :=
-  [.root .B 0 [some (.num 1), some (.num 2), some (.num 3)], .without 0 .B 1 (.num 2), .with_ 1 .B 1 (.num 9)]
+  [.root .B 0 [some (.num 1), some (.num 2), some (.num 3)], .without 0 .B 2 (.num 3), .with_ 1 .B 2 (.num 9)]
 
 /-- the runtime gave the literal one spare cell (`[]rune("abc")` has capacity 4) -/
 def spare1 : Oracle := fun _ => 1
@@ -152,10 +160,10 @@ theorem alias_before_repair_ancestor :
     cells (runAll false spare1 ancestor init).h ((runAll false spare1 ancestor init).vals.getD 0 .err)
       = [some (.num 97), some (.num 98), some (.num 100)] := by decide
 
-/-- the same through `Bytes.Without`'s re-slice `b.b[:i]` (needs no spare capacity at all) -/
+/-- the same through `Bytes.Without`'s re-slice `b.b[:len-1]` (needs no spare capacity at all) -/
 theorem alias_before_repair_bytes :
     cells (runAll false (fun _ => 0) ancestorBytes init).h ((runAll false (fun _ => 0) ancestorBytes init).vals.getD 0 .err)
-      = [some (.num 1), some (.num 9), some (.num 3)] := by decide
+      = [some (.num 1), some (.num 2), some (.num 9)] := by decide
 
 /-- the full-strength statement about the code as found … -/
 def C03_history_unrepaired : Prop :=
@@ -183,22 +191,12 @@ theorem witnesses_after_repair :
 /-- `String.with` / `Bytes.with` at the end, as repaired: the new value reads as the old contents followed by the new
 element (for any in-bounds slice, any oracle) — the copy is a copy, and it is the parent that stays untouched -/
 theorem with_at_end_appends (orc : Oracle) (k : Kind) (h : Heap) (s : Slice) (off : Int) (aux : Nat) (c : V)
-    (hlen : (read h s).length = s.len) :
+    (w : s.WF h) :
     cells (seqWith true orc k h s off aux (off + s.len) c).1 (seqWith true orc k h s off aux (off + s.len) c).2
       = read h s ++ [some c] ∧
-    read (seqWith true orc k h s off aux (off + s.len) c).1 s = read h s := by
-  refine ⟨seqWith_end_cells orc k h s off aux c hlen, ?_⟩
-  by_cases hs : s.arr < h.length
-  · exact read_frame (opOK_seqWith orc k h s off aux _ c hs).1 s hs
-  · -- a slice outside the heap reads as empty before and after
-    have hz : s.len = 0 := by
-      have e0 : read h s = [] := by
-        have e1 : h.getD s.arr [] = [] := by
-          simp [List.getD, List.getElem?_eq_none (Nat.le_of_not_lt hs)]
-        unfold read
-        rw [e1]; simp
-      rw [e0] at hlen; simpa using hlen.symm
-    simp [read, hz]
+    read (seqWith true orc k h s off aux (off + s.len) c).1 s = read h s :=
+  ⟨seqWith_end_cells orc k h s off aux c (read_length w),
+   read_frame (opOK_seqWith orc k h s off aux _ c w.arr).1 s w.arr⟩
 
 /-! ### Part 6 — relations: headings and rows are slices too -/
 
@@ -300,6 +298,218 @@ theorem rel_witnesses_after_repair :
       ((Rel.Impl.runAll Rel.Impl.repaired (fun _ => 1) relRows Rel.Impl.init).vals.getD 5 .err)).tail
       = [[some (n1 1), some (n1 2), some (n1 3), some (n1 4)]] := by decide
 
+
+/-! ### Part 7 — in-bounds well-formedness: every slice of every value lies inside its backing array -/
+
+/-- one (repaired) operation keeps every existing value's slice inside its array — it never changes the length of an
+array — and yields a value whose slice `[lo, lo+len) ⊆ [lo, lo+cap)` lies inside its array: none of the model's
+re-slices (`s[1:]`, `s[:len-1]`, `b.b[:i]`, `values[i:j]` of patterns, //seq.split pieces, trim_prefix/suffix) goes out
+of bounds, so Go would not have panicked where the model goes on -/
+theorem wf_step (orc : Oracle) (st : St) (inv : InvWF st) (op : Op) : InvWF (step true orc st op) := by
+  have ok := wfok_run1 orc st inv op
+  intro x hx
+  simp only [step, List.mem_append, List.mem_singleton] at hx
+  rcases hx with hx | rfl
+  · exact (inv x hx).shape ok.1
+  · exact ok.2
+
+/-- in every history, from the empty heap, for every oracle, every value is well-formed at every later time -/
+theorem C03_wf_history (orc : Oracle) (ops : List Op) : InvWF (runAll true orc ops init) := by
+  have : ∀ (ops : List Op) (st : St), InvWF st → InvWF (runAll true orc ops st) := by
+    intro ops
+    induction ops with
+    | nil => intro st inv; exact inv
+    | cons op r ih => intro st inv; exact ih _ (wf_step orc st inv op)
+  exact this ops init invWF_init
+
+/-- `with` at the end on any value of any history: no hypothesis left — the value's slice is in bounds because the
+history made it -/
+theorem with_at_end_appends_in_history (orc : Oracle) (ops : List Op) (i : Nat) (k : Kind) (s : Slice) (off : Int)
+    (aux : Nat) (c : V) (hx : (runAll true orc ops init).vals[i]? = some (.seq k s off aux)) :
+    cells (seqWith true orc k (runAll true orc ops init).h s off aux (off + s.len) c).1
+        (seqWith true orc k (runAll true orc ops init).h s off aux (off + s.len) c).2
+      = read (runAll true orc ops init).h s ++ [some c] :=
+  (with_at_end_appends orc k _ s off aux c (C03_wf_history orc ops _ (List.mem_of_getElem? hx))).1
+
+/-- the same for relations: heading and every row of every relation of every history lie inside their arrays -/
+theorem rel_wf_step (orc : Oracle) (st : Rel.Impl.St) (inv : InvWFR st) (op : ROp) :
+    InvWFR (Rel.Impl.step Rel.Impl.repaired orc st op) := by
+  have ok := wfokr_run1 orc st inv op
+  intro x hx
+  simp only [Rel.Impl.step, List.mem_append, List.mem_singleton] at hx
+  rcases hx with hx | rfl
+  · exact (inv x hx).shape ok.1
+  · exact ok.2
+
+theorem C03_rel_wf_history (orc : Oracle) (ops : List ROp) :
+    InvWFR (Rel.Impl.runAll Rel.Impl.repaired orc ops Rel.Impl.init) := by
+  have : ∀ (ops : List ROp) (st : Rel.Impl.St), InvWFR st → InvWFR (Rel.Impl.runAll Rel.Impl.repaired orc ops st) := by
+    intro ops
+    induction ops with
+    | nil => intro st inv; exact inv
+    | cons op r ih => intro st inv; exact ih _ (rel_wf_step orc st inv op)
+  exact this ops Rel.Impl.init invWFR_init
+
+/-! ### Part 8 — nested payloads: array items held as denotations vs. references followed through the heap -/
+
+private theorem frame_from (orc : Oracle) (post : List Op) (st : St) (inv : Inv st) :
+    Frame st.h.length st.h (runAll true orc post st).h := by
+  induction post generalizing st with
+  | nil => exact Frame.refl _ _
+  | cons op r ih =>
+    have f1 := (opOK_run1 orc st inv op).1
+    have f2 := ih (step true orc st op) (step_frame orc st inv op).1
+    have e : runAll true orc (op :: r) st = runAll true orc r (step true orc st op) := rfl
+    rw [e]
+    exact ⟨Nat.le_trans f1.1 f2.1, fun a ha => (f2.2 a (Nat.lt_of_lt_of_le ha f1.1)).trans (f1.2 a ha)⟩
+
+/-- The reduction behind "array items are denotations".  Take ANY tree of payload slices `x` (an array whose cells refer
+to strings, to arrays of strings, …, to any depth) that lies in the heap after `pre` and whose array cells, in the model,
+hold the denotations of the items referred to.  After ANY continuation `post`, for ANY oracle:
+(1) the model's snapshot of the root equals the denotation obtained by FOLLOWING the references through the current heap;
+(2) that denotation is the one it had after `pre` — no operation wrote into an item's payload, because operations only read
+or copy item references and store only into arrays they allocated themselves (`step_writes_only_fresh`). -/
+theorem C03_nested_history (orc : Oracle) (pre post : List Op) (x : NVal)
+    (l : NLive (runAll true orc pre init).h x) (a : Agrees (runAll true orc pre init).h x) :
+    snap (runAll true orc (pre ++ post) init).h x.toH = nden (runAll true orc (pre ++ post) init).h x ∧
+      nden (runAll true orc (pre ++ post) init).h x = nden (runAll true orc pre init).h x ∧
+      Agrees (runAll true orc (pre ++ post) init).h x := by
+  rw [runAll_append]
+  have inv := (history_from orc pre init inv_init).1
+  have f := frame_from orc post _ inv
+  exact ⟨(abstraction_sound f x l a).1, (abstraction_sound f x l a).2.1, agrees_frame f x l a⟩
+
+/-- non-vacuity: `let s = 'abc'; let a = [s]` — the array's cell holds the string's denotation; the tree
+`arr (slice of a) [flat (slice of s)]` is live and agrees with the model in the heap the history built -/
+example :
+    let st := runAll true spare1 [.root .S 0 abc, .root .A 0 [some (V.mkSeq "@char" 0 abc)]] init
+    NLive st.h (.arr ⟨1, 0, 1, 2⟩ 0 [some (.flat .S ⟨0, 0, 3, 4⟩ 0)]) ∧
+      Agrees st.h (.arr ⟨1, 0, 1, 2⟩ 0 [some (.flat .S ⟨0, 0, 3, 4⟩ 0)]) := by
+  refine ⟨⟨by decide, by (show (0 : Nat) < _; decide), trivial⟩, ⟨rfl, trivial, trivial⟩⟩
+
+/-! ### Part 9 — refinement: what an operation yields over the heap DENOTES what the specification says -/
+
+/-- the values so far as the specification sees them: their snapshots (`none` for a failed step) -/
+def specVals (st : St) : List (Option V) := st.vals.map (fun x => snapO (st.h, x))
+
+private theorem getV_specVals (st : St) (i : Nat) : Spec.getV (specVals st) i = snapO (st.h, st.vals.getD i .err) := by
+  unfold Spec.getV specVals List.getD
+  rw [List.getElem?_map]
+  cases st.vals[i]? with
+  | none => rfl
+  | some x => simp
+
+/-- `vI with (@: at, @char|@byte|@item: c)`, whatever `vI` is (String, Bytes, Array — at an end, on a present element, into
+a hole, beyond an end, onto an occupied index —, a generic set, the empty set, a failed value): the result read through
+the heap is `Spec.with_` of the operand's snapshot.  No hypothesis beyond the history's own invariant. -/
+theorem with_refines_spec (orc : Oracle) (st : St) (inv : InvWF st) (i : Nat) (k : Kind) (at_ : Int) (c : V) :
+    snapO (run1 true orc st (.with_ i k at_ c)) = Spec.step (specVals st) (.with_ i k at_ c) := by
+  simp only [run1, Spec.step, getV_specVals]
+  exact withV_refines orc st.h _ k at_ c (inv.getD i)
+
+/-- `vI without (…)` for an operand of the tuple's kind (or a generic set) whose cached count agrees with its cells -/
+theorem without_refines_spec (orc : Oracle) (st : St) (inv : InvWF st) (i : Nat) (k : Kind) (at_ : Int) (c : V)
+    (haux : AuxOK st.h (st.vals.getD i .err))
+    (hkind : ∀ k' s off aux, st.vals.getD i .err = .seq k' s off aux → k' = k) :
+    snapO (run1 true orc st (.without i k at_ c)) = Spec.step (specVals st) (.without i k at_ c) := by
+  simp only [run1, Spec.step, getV_specVals]
+  exact withoutV_refines st.h _ k at_ c (inv.getD i) haux hkind
+
+/-- `n\vI` for a String, Bytes or Array that the specification recognises as a sequence -/
+theorem offset_refines_spec (orc : Oracle) (st : St) (inv : InvWF st) (i : Nat) (n : Int) (k : Kind) (s : Slice) (off : Int)
+    (aux : Nat) (hx : st.vals.getD i .err = .seq k s off aux)
+    (hseq : Spec.isSeqOrEmpty (snap st.h (.seq k s off aux)) = true) :
+    snapO (run1 true orc st (.offset i n)) = Spec.step (specVals st) (.offset i n) := by
+  have w : s.WF st.h := by have := inv.getD i; rw [hx] at this; exact this
+  simp only [run1, Spec.step, getV_specVals, hx, snapO_seq, Option.bind_some]
+  have hne : offsetV st.h (.seq k s off aux) n ≠ .err := by
+    cases k with
+    | S => simp only [offsetV, newOffsetString]; split <;> simp [hnone]
+    | B => simp only [offsetV, newOffsetBytes]; split <;> simp [hnone]
+    | A => exact newOffsetArray_ne_err _ _ _
+  have e := offsetV_refines st.h k s off aux n w
+  have hs : snapO (st.h, offsetV st.h (.seq k s off aux) n) = some (snap st.h (offsetV st.h (.seq k s off aux) n)) := by
+    unfold snapO
+    split
+    · rename_i he; exact absurd he hne
+    · rfl
+  rw [hs, e]
+  simp only [snap] at hseq
+  simp [Spec.offset, hseq]
+
+/-- `vI ++ vJ` (and every other operation the model computes as "specification, then the set builder": Where/Map on
+strings and bytes, joins of arrays, Difference in //seq.trim_* of arrays, //seq.concat of arrays): the result denotes the
+specified set whenever the builder can hold it — no two members at one index with different values, byte tuples without gaps -/
+theorem concat_refines_spec (orc : Oracle) (st : St) (i j : Nat)
+    (hi : st.vals.getD i .err ≠ .err) (hj : st.vals.getD j .err ≠ .err)
+    (hf : ∀ v, Spec.concat (snap st.h (st.vals.getD i .err)) (snap st.h (st.vals.getD j .err)) = some v →
+      ∀ k ps, decodeSeq v = some (k, ps) → Functional ps ∧ (k = .B → Gapless ps)) :
+    snapO (run1 true orc st (.concat i j)) = Spec.step (specVals st) (.concat i j) := by
+  have si : snapO (st.h, st.vals.getD i .err) = some (snap st.h (st.vals.getD i .err)) := by
+    unfold snapO; split
+    · rename_i he; exact absurd he hi
+    · rfl
+  have sj : snapO (st.h, st.vals.getD j .err) = some (snap st.h (st.vals.getD j .err)) := by
+    unfold snapO; split
+    · rename_i he; exact absurd he hj
+    · rfl
+  simp only [run1, Spec.step, getV_specVals, si, sj, Option.bind_some]
+  apply viaBuilder_refines _ _ _ hf
+  intro v hv
+  unfold Spec.concat at hv
+  split at hv
+  · simp at hv; exact ⟨_, hv.symm⟩
+  · simp at hv
+
+/-- the //seq functions on strings and byte arrays (and `repeat` on arrays, `split` on all three): for dense, non-empty
+operands of admissible elements (chars are non-negative numbers, bytes are bytes) the value the model yields — a re-slice of
+the subject for bytes' trim_prefix / trim_suffix, a fresh array otherwise — denotes what the specification says -/
+theorem seq_trimPrefix_refines_spec (orc : Oracle) (st : St) (inv : InvWF st) (p s : Nat) {kp ks : Kind} {sp ss : Slice}
+    {xp xs : List V} (hp : denseCells st.h (st.vals.getD p .err) = some (kp, sp, xp))
+    (hs : denseCells st.h (st.vals.getD s .err) = some (ks, ss, xs)) (hk : ks ≠ .A) (hnp : xp ≠ []) (hns : xs ≠ [])
+    (hvp : ∀ y, y ∈ xp → validElem kp y = true) (hvs : ∀ y, y ∈ xs → validElem ks y = true) :
+    snapO (run1 true orc st (.trimPrefix p s)) = Spec.step (specVals st) (.trimPrefix p s) := by
+  rw [trimPrefix_refines orc st inv p s hp hs hk hnp hns hvp hvs]
+  simp only [Spec.step, getV_specVals, snapO_of_ne_err (snap_dense hp).2, snapO_of_ne_err (snap_dense hs).2, Option.bind_some]
+
+theorem seq_trimSuffix_refines_spec (orc : Oracle) (st : St) (inv : InvWF st) (p s : Nat) {kp ks : Kind} {sp ss : Slice}
+    {xp xs : List V} (hp : denseCells st.h (st.vals.getD p .err) = some (kp, sp, xp))
+    (hs : denseCells st.h (st.vals.getD s .err) = some (ks, ss, xs)) (hk : ks ≠ .A) (hnp : xp ≠ []) (hns : xs ≠ [])
+    (hvp : ∀ y, y ∈ xp → validElem kp y = true) (hvs : ∀ y, y ∈ xs → validElem ks y = true) :
+    snapO (run1 true orc st (.trimSuffix p s)) = Spec.step (specVals st) (.trimSuffix p s) := by
+  rw [trimSuffix_refines orc st inv p s hp hs hk hnp hns hvp hvs]
+  simp only [Spec.step, getV_specVals, snapO_of_ne_err (snap_dense hp).2, snapO_of_ne_err (snap_dense hs).2, Option.bind_some]
+
+theorem seq_sub_refines_spec (orc : Oracle) (st : St) (o n s : Nat) {ko kn ks : Kind} {so sn ss : Slice} {xo xn xs : List V}
+    (ho : denseCells st.h (st.vals.getD o .err) = some (ko, so, xo)) (hn : denseCells st.h (st.vals.getD n .err) = some (kn, sn, xn))
+    (hs : denseCells st.h (st.vals.getD s .err) = some (ks, ss, xs)) (hk : ks ≠ .A)
+    (hno : xo ≠ []) (hnn : xn ≠ []) (hns : xs ≠ [])
+    (hvo : ∀ y, y ∈ xo → validElem ko y = true) (hvn : ∀ y, y ∈ xn → validElem kn y = true) (hvs : ∀ y, y ∈ xs → validElem ks y = true) :
+    snapO (run1 true orc st (.sub o n s)) = Spec.step (specVals st) (.sub o n s) := by
+  rw [sub_refines orc st o n s ho hn hs hk hno hnn hns hvo hvn hvs]
+  simp only [Spec.step, getV_specVals, snapO_of_ne_err (snap_dense ho).2, snapO_of_ne_err (snap_dense hn).2,
+    snapO_of_ne_err (snap_dense hs).2, Option.bind_some]
+
+theorem seq_split_refines_spec (orc : Oracle) (st : St) (d s : Nat) {kd ks : Kind} {sd ss : Slice} {xd xs : List V}
+    (hd : denseCells st.h (st.vals.getD d .err) = some (kd, sd, xd)) (hs : denseCells st.h (st.vals.getD s .err) = some (ks, ss, xs))
+    (hnd : xd ≠ []) (hns : xs ≠ []) (hvd : ∀ y, y ∈ xd → validElem kd y = true) (hvs : ∀ y, y ∈ xs → validElem ks y = true) :
+    snapO (run1 true orc st (.split d s)) = Spec.step (specVals st) (.split d s) := by
+  rw [split_refines orc st d s hd hs hnd hns hvd hvs]
+  simp only [Spec.step, getV_specVals, snapO_of_ne_err (snap_dense hd).2, snapO_of_ne_err (snap_dense hs).2, Option.bind_some]
+
+theorem seq_repeat_refines_spec (orc : Oracle) (st : St) (n i : Nat) {k : Kind} {s : Slice} {xs : List V}
+    (hs : denseCells st.h (st.vals.getD i .err) = some (k, s, xs)) (hk : k ≠ .B) (hns : xs ≠ [])
+    (hvs : ∀ y, y ∈ xs → validElem k y = true) :
+    snapO (run1 true orc st (.repeat_ n i)) = Spec.step (specVals st) (.repeat_ n i) := by
+  rw [repeat_refines orc st n i hs hk hns hvs]
+  simp only [Spec.step, getV_specVals, snapO_of_ne_err (snap_dense hs).2, Option.bind_some]
+
+theorem seq_concat_refines_spec (orc : Oracle) (st : St) (i j : Nat) {si sj : Slice} {xi xj : List V}
+    (hi : denseCells st.h (st.vals.getD i .err) = some (.S, si, xi)) (hj : denseCells st.h (st.vals.getD j .err) = some (.S, sj, xj))
+    (hni : xi ≠ []) (hnj : xj ≠ []) (hvi : ∀ y, y ∈ xi → validElem .S y = true) (hvj : ∀ y, y ∈ xj → validElem .S y = true) :
+    snapO (run1 true orc st (.sconcat i j)) = Spec.step (specVals st) (.sconcat i j) := by
+  rw [sconcat_refines orc st i j hi hj hni hnj hvi hvj]
+  simp only [Spec.step, getV_specVals, snapO_of_ne_err (snap_dense hi).2, snapO_of_ne_err (snap_dense hj).2, Option.bind_some]
 
 /-! ### Part 5 — regenerated facts: the write sites of rel/ and syntax/std_seq*.go -/
 
